@@ -235,9 +235,15 @@ class FSCAlignment(TomographyInput):
     ) -> AnyArray[np.float32]:
         """Compute landscape."""
         mw = self._get_missing_wedge_mask(quaternion, backend)
-        return fsc_landscape(
+        lds = fsc_landscape(
             subvolume * mw,
             template * mw,
             max_shifts=max_shifts,
             backend=backend,
         )
+        # same shape convention as the other models: 2 * int(max_shift) + 1
+        slices = tuple(
+            slice(s // 2 - int(m), s // 2 + int(m) + 1)
+            for s, m in zip(lds.shape, max_shifts)
+        )
+        return lds[slices]
